@@ -3,7 +3,7 @@ CONSTANTS
   N = 3
   NMin = 1
   D = 2
-  Vals = {0,1,2,3}
+  Vals = {0,1,2}
   Wts = {0,1,2}
   Export = FALSE
 INVARIANT QuantilesOrdered
